@@ -32,7 +32,8 @@ LEGACY = ["copy_subexprs"]      # deviations still present in the tree under tes
 # spec mutant -> (slice, MaxNodes, MaxDepth)
 MUTANTS = {"no_pop_nested_class": ("scope", 4, 4), "class_body_checked": ("scope", 3, 3),
            "import_before_future": ("prefix", 3, 2), "method_decorated": ("scope", 3, 3),
-           "first_is_top": ("deco", 2, 3), "subscript_checked": ("kinds", 2, 3)}
+           "first_is_top": ("deco", 2, 3), "subscript_checked": ("kinds", 2, 3),
+           "end_line_from_start": ("scope", 2, 3)}
 LEGACY_DEMO = {"async_no_scope": ("scope", 4, 3, "ScopesFaithful"), "copy_subexprs": ("scope", 2, 3, "EvalOnce")}
 COVERAGE_RUNS = [("scope", 3, 3), ("deco", 2, 3), ("prefix", 3, 2)]
 ACTIONS = ["Grow", "EnterModule", "Leave", "PlaceDecorator", "EnterClass", "EnterFunc", "VisitAnnAssign",
@@ -119,7 +120,7 @@ class Meta:
         self.top = []            # top-level nodes in order
 
 
-def render(prog, bad=(), uid=0, seed=0, edits=None, orig=None, poison=()):
+def render(prog, bad=(), uid=0, seed=0, edits=None, orig=None, poison=(), layout_=None):
     """Render the tree as Python source.  With ``edits`` (a spec edit set) the by-hand reference is
     written instead: explicit import, @beartype decorators and die_if_unbearable calls."""
     kids = tree_of(prog)
@@ -136,8 +137,19 @@ def render(prog, bad=(), uid=0, seed=0, edits=None, orig=None, poison=()):
         elif e["kind"] == "check":
             chks.setdefault(e["at"], []).append(e)
     state = {"orig": 0}
+    # layout of instrumented statements, chosen per program (seeded):
+    #   0 one line each; 1 parenthesised values / trailing body statements closing at column 0;
+    #   2 triple-quoted strings closing at column 0; 3 multi-line headers, decorators and values, indented
+    layout = (seed // len(FORMS)) % 4 if layout_ is None else layout_
+    m.layout = layout
 
     def out(text, node=None, aux=None, inserted_for=None):
+        if "\n" in text:
+            first, *rest = text.split("\n")
+            ln = out(first, node=node, aux=aux, inserted_for=inserted_for)
+            for t in rest:
+                out(t, inserted_for=inserted_for)
+            return ln
         m.lines.append(text)
         ln = len(m.lines)
         if inserted_for is not None:
@@ -183,7 +195,7 @@ def render(prog, bad=(), uid=0, seed=0, edits=None, orig=None, poison=()):
             if dk == "p":
                 key = f"{i}.dec{k}"
                 m.counters[key] = (i, "dec")
-                texts.append((f'@_d("{key}")', None))
+                texts.append((f'@_d(\n{ind}    "{key}"\n{ind})' if layout == 3 else f'@_d("{key}")', None))
             else:
                 texts.append(("@hostile", None))
         for e in decs.get(i, ()):
@@ -202,9 +214,12 @@ def render(prog, bad=(), uid=0, seed=0, edits=None, orig=None, poison=()):
             hint = "42" if i in poison else "int"
             h = tick(i, "ann", hint) if n["ann"] else ""
             slf = "self, " if is_method(i) else ""
-            sig = {"none": f"({slf}a=None)", "arg": f"({slf}a: {h})", "ret": f"({slf}a) -> {h}",
-                   "kwonly": f"({slf}*, a: {h})", "posonly": f"(a: {h}, /)" if not slf else f"(self, a: {h}, /)",
-                   "vararg": f"({slf}*a: {h})", "kwarg": f"({slf}**a: {h})"}[form]
+            inner = {"none": f"{slf}a=None", "arg": f"{slf}a: {h}", "ret": f"{slf}a",
+                     "kwonly": f"{slf}*, a: {h}", "posonly": f"{slf}a: {h}, /",
+                     "vararg": f"{slf}*a: {h}", "kwarg": f"{slf}**a: {h}"}[form]
+            arrow = f" -> {h}" if form == "ret" else ""
+            sig = f"(\n{ind}    {inner},\n{ind}){arrow}" if layout == 3 and form != "posonly" else \
+                f"(\n{ind}    {inner}\n{ind}){arrow}" if layout == 3 else f"({inner}){arrow}"
             out(f"{ind}{'async ' if n['asy'] else ''}def f{i}{sig}:", node=i)
             if own_import(i):
                 # the hostile import would make the name local to the whole function body
@@ -212,16 +227,21 @@ def render(prog, bad=(), uid=0, seed=0, edits=None, orig=None, poison=()):
             for c in kids[i]:
                 emit(c, ind + "    ")
             if form == "ret":
-                out(f"{ind}    return a", aux=i)
+                out(f"{ind}    return (a\n)" if layout in (1, 2) else f"{ind}    return a", aux=i)
+            elif layout in (1, 2):
+                # the definition ends left of the column it starts in
+                out(f"{ind}    (None,\n)" if layout == 1 else f'{ind}    """end of f{i}\n"""', aux=i)
             if n["ann"]:
                 m.sites.append(i)
             if not is_method(i):
                 out(f'{ind}_call(f{i}, "{form}", {value(i)})', aux=i)
         elif k == "class":
             emit_decorators(i, ind)
-            out(f"{ind}class C{i}_{uid}:", node=i)
+            out(f"{ind}class C{i}_{uid}(\n{ind}):" if layout == 3 else f"{ind}class C{i}_{uid}:", node=i)
             for c in kids[i]:
                 emit(c, ind + "    ")
+            if layout in (1, 2):
+                out(f"{ind}    (None,\n)" if layout == 1 else f'{ind}    """end of C{i}\n"""', aux=i)
             plan = []
 
             def methods(j):
@@ -244,7 +264,14 @@ def render(prog, bad=(), uid=0, seed=0, edits=None, orig=None, poison=()):
             else:
                 tgt = f'{tick(i, "base", "_m")}["x{i}"]'
             if n["val"]:
-                out(f"{ind}{tgt}: {a} = {tick(i, 'val', value(i))}", node=i)
+                v = tick(i, "val", value(i))
+                if layout == 1:
+                    v = v[:-1] + "\n)"
+                elif layout == 2:
+                    v = f'{v} if 1 else """never\n"""'
+                elif layout == 3:
+                    v = v.replace(", ", f",\n{ind}        ", 1)
+                out(f"{ind}{tgt}: {a} = {v}", node=i)
                 m.sites.append(i)
             else:
                 out(f"{ind}{tgt}: {a}", node=i)
@@ -314,6 +341,10 @@ def _has_loc(sub):
     return True
 
 
+def _span(n):
+    return (n.lineno, n.col_offset), (getattr(n, "end_lineno", None), getattr(n, "end_col_offset", None))
+
+
 class ShapeDiff:
     """Diff of the transformed AST against a fresh parse of the same source, in spec terms."""
 
@@ -321,6 +352,35 @@ class ShapeDiff:
         self.nal = node_at_line
         self.edits = []
         self.problems = []
+        self.drift = []
+        self.multiline_hosts = 0
+
+    def anchors(self, top, host, what):
+        """Full location of an inserted node against its host statement (the ORIGINAL node): every node of the
+        inserted subtree must be a valid range inside the host's range.  Returns which end point of the host the
+        inserted node's end line / end column were taken from (compared with the spec's eline / ecol)."""
+        (hs, he) = _span(host)
+        for n in ast.walk(top):
+            if getattr(n, "lineno", None) is None:
+                continue
+            st, en = _span(n)
+            if en[0] is None or en[1] is None:
+                self.problems.append(f"inserted {what}: node without end position at line {st[0]}")
+            elif st > en:
+                self.problems.append(f"inserted {what}: location ends before it starts at line {st[0]} (column {st[1]} "
+                                     f"to line {en[0]}, column {en[1]}; host statement {hs}-{he})")
+            elif st < hs or en > he:
+                self.problems.append(f"inserted {what}: location outside its host statement at line {hs[0]} "
+                                     f"({st}-{en} not in {hs}-{he})")
+        st, en = _span(top)
+        if hs[0] != he[0]:
+            self.multiline_hosts += 1
+        el = "end" if en[0] == he[0] else "start" if en[0] == hs[0] else "other"
+        ec = "end" if en[1] == he[1] else "start" if en[1] == hs[1] else "other"
+        if st != hs:
+            self.drift.append(f"inserted {what} does not start where its host starts: {st} vs {hs}")
+        self.last_host = (hs[0] != he[0], hs[0] != he[0] and he[1] < hs[1])
+        return el, ec
 
     def node(self, line):
         return self.nal.get(line, -1)
@@ -343,8 +403,9 @@ class ShapeDiff:
             if isinstance(t, ast.ImportFrom) and t.module == STAR_MODULE and [x.name for x in t.names] == ["*"]:
                 if not is_module:
                     self.problems.append("import inserted outside the module body")
+                el, ec = self.anchors(t, a, "import") if a is not None else ("end", "end")
                 self.edits.append({"kind": "import", "at": 0, "pos": ti, "line": self.node(t.lineno), "conf": False,
-                                   "reeval": []})
+                                   "reeval": [], "eline": el, "ecol": ec, "host": getattr(self, "last_host", (False, False))})
             elif (isinstance(t, ast.Expr) and isinstance(t.value, ast.Call) and isinstance(t.value.func, ast.Name)
                   and t.value.func.id == "__die_if_unbearable_beartype__"):
                 if not (prev_was_orig and isinstance(prev, ast.AnnAssign)):
@@ -369,8 +430,10 @@ class ShapeDiff:
                         self.problems.append(f"check at line {t.lineno} does not test the assigned target")
                 else:
                     self.problems.append(f"check call at line {t.lineno} has unexpected arguments")
+                el, ec = self.anchors(t, prev, "check") if prev_was_orig else ("other", "other")
                 self.edits.append({"kind": "check", "at": at, "pos": 1, "line": self.node(t.lineno),
-                                   "conf": any(k.arg == "conf" for k in call.keywords), "reeval": sorted(re)})
+                                   "conf": any(k.arg == "conf" for k in call.keywords), "reeval": sorted(re),
+                                   "eline": el, "ecol": ec, "host": getattr(self, "last_host", (False, False))})
                 prev_was_orig = False
             else:
                 self.problems.append(f"unexpected inserted {type(t).__name__} at line {getattr(t, 'lineno', '?')}")
@@ -397,8 +460,10 @@ class ShapeDiff:
             ck = isc and any(kw.arg == "conf" for kw in d.keywords)
             if isc and not ck:
                 self.problems.append(f"inserted decorator call without conf= (line {a.lineno})")
+            el, ec = self.anchors(d, a, "decorator") if _has_loc(d) else ("other", "other")
             self.edits.append({"kind": "decorate", "at": self.node(a.lineno), "pos": k,
-                               "line": self.node(getattr(d, "lineno", -1)), "conf": bool(ck), "reeval": []})
+                               "line": self.node(getattr(d, "lineno", -1)), "conf": bool(ck), "reeval": [],
+                               "eline": el, "ecol": ec, "host": getattr(self, "last_host", (False, False))})
         if len(rest) != len(a_list):
             self.problems.append(f"decorator list of line {a.lineno} changed beyond one insertion")
             return
@@ -834,6 +899,32 @@ def classify_shape(prog, real, rule):
     return keys
 
 
+def _problem_key(p):
+    """Canonical class of a SHAPE problem: the message without positions."""
+    import re
+    return re.sub(r"\d+", "N", p.split(" at line")[0].split(" (line")[0])[:90]
+
+
+def compare_ends(real_edits, rule_edits):
+    """End anchors of inserted nodes (which end point of the host their end line / column come from) against
+    the spec's.  Returns (violations, drift): a mixed or foreign pair is not a position of the host."""
+    want = {(e["kind"], e["at"]): (e["eline"], e["ecol"]) for e in rule_edits}
+    bad, drift = [], []
+    for e in real_edits:
+        w = want.get((e["kind"], e["at"]))
+        got = (e.get("eline"), e.get("ecol"))
+        if w is None or got == w:
+            continue
+        if got[0] != got[1] or "other" in got:
+            bad.append(({"obs": "shape", "diff": "differs:end", "edit": e["kind"], "end_line_from": got[0],
+                         "end_column_from": got[1]},
+                        f"the inserted {e['kind']} node takes its end line from the host's {got[0]} and its end column "
+                        f"from the host's {got[1]}; the specification says {w}"))
+        else:
+            drift.append(f"inserted {e['kind']} node ends at the host's {got[0]}, the model says {w[0]}")
+    return bad, drift
+
+
 def describe_row(row, ri=0, bad=()):
     return render(row["prog"], bad=bad, uid=ri, seed=form_seed(ri)).src
 
@@ -863,7 +954,7 @@ def do_shape(rep, rows, finds, pool, sel=None):
     chunks = [(_SEED, [(ri, {"prog": rows[ri]["prog"], "conf": rows[ri]["conf"]}) for ri in idx[a:a + step]])
               for a in range(0, n, step)]
     res = pool.map(_shape_chunk, chunks, chunksize=1) if pool else [_shape_chunk(c) for c in chunks]
-    agree = 0
+    agree = n_ml = n_tight = 0
     for chunk in res:
         for ri, edits, problems in chunk:
             row = rows[ri]
@@ -871,12 +962,19 @@ def do_shape(rep, rows, finds, pool, sel=None):
             case = {"kind": "row", "row": row, "ri": ri}
             rep.count(1)
             for p in problems:
-                finds.add({"obs": "shape", "diff": "problem", "what": p.split(" at line")[0].split(" (line")[0][:80]},
+                finds.add({"obs": "shape", "diff": "problem", "what": _problem_key(p)},
                           f"{p}\n{describe_row(row, ri)}", case)
             if edits is None:
                 continue
             real = edit_set(edits, False)
             rule = edit_set(row["rule"], False)
+            bad_ends, drift = compare_ends(edits, row["rule"])
+            n_ml += sum(1 for e in edits if e.get("host", (0, 0))[0])
+            n_tight += sum(1 for e in edits if e.get("host", (0, 0))[1])
+            for key, what in bad_ends:
+                finds.add(key, f"SHAPE conf={row['conf']}: {what}\n{describe_row(row, ri)}", case)
+            for dmsg in drift:
+                rep.spec_drift(dmsg)
             if real == rule:
                 agree += 1
             else:
@@ -892,6 +990,8 @@ def do_shape(rep, rows, finds, pool, sel=None):
             if len(row["rule"]) > 1:
                 rep.nontrivial(row_key(row))
     rep.add("shape_rows", n)
+    rep.add("inserted_nodes_with_multiline_host", n_ml)
+    rep.add("inserted_nodes_whose_host_ends_left_of_its_start_column", n_tight)
     rep.add("shape_rows_equal_to_rule", agree)
     return agree
 
@@ -1283,9 +1383,12 @@ def do_given(rep, d, finds, only=None):
             seen += 1
             rep.count(1)
             for p in sd.problems:
-                finds.add({"obs": "shape", "diff": "problem", "what": p.split(" at line")[0].split(" (line")[0][:80]},
+                finds.add({"obs": "shape", "diff": "problem", "what": _problem_key(p)},
                           f"{rel}: {p}", case)
             real, rule = edit_set(sd.edits, False), edit_set(row["rule"], False)
+            for key, what in compare_ends(sd.edits, row["rule"])[0]:
+                finds.add(key, f"SHAPE {rel} conf={row['conf']}: {what}", case)
+            rep.add("inserted_nodes_with_multiline_host", sd.multiline_hosts)
             if real != rule:
                 for key, what in classify_shape(prog, real, rule):
                     finds.add(key, f"SHAPE {rel} conf={row['conf']}: {what}", case)
@@ -1370,6 +1473,8 @@ def run(rep, tier, seed):
     for r in rows:
         by_slice[r["slice"]] = by_slice.get(r["slice"], 0) + 1
     rep.cov["rows_by_slice"] = by_slice
+    if not rep.cov.get("inserted_nodes_whose_host_ends_left_of_its_start_column"):
+        rep.machinery("vacuous SHAPE run: no instrumented statement spans several lines and ends left of its start column")
     kinds = {e["kind"] for r in rows for e in r["rule"]}
     if kinds != {"import", "decorate", "check"}:
         rep.machinery(f"vacuous case table: edit kinds {kinds}")
